@@ -1,0 +1,8 @@
+// +build !verif
+
+package consensus
+
+import "github.com/bbva/qed/crypto/hashing"
+
+// verifHasherF is the identity in normal builds (see verif_on.go).
+func verifHasherF(f func() hashing.Hasher) func() hashing.Hasher { return f }
